@@ -91,6 +91,23 @@ def check_C10(tier, seed, t0):
     for v in corr_violations('C10', framing, ['wire']):
         if (v['panel'], v['site']) not in flagged:
             viol.append(v)
+    # (f) exact repeat counts: the same uniform fill, of a different length than the transcription of the code asks for
+    for m in run['mismatches']:
+        fd = m.get('first_diff')
+        if 'frames' in m['projs'] and fd and isinstance(fd[1], str) and isinstance(fd[2], str) and fd[1].startswith('Z ') and fd[2].startswith('Z '):
+            a, b = fd[1].split(' '), fd[2].split(' ')
+            def uni(t):
+                u = [x for x in t if x.startswith('u=')]
+                if u:
+                    return u[0][2:]
+                hx = t[5] if len(t) > 5 else ''
+                return hx[:2] if hx and hx == hx[:2] * (len(hx) // 2) else None
+            if uni(a) is not None and uni(a) == uni(b) and a[1] != b[1]:
+                viol.append(dict(panel=m['panel'], site=m['op'], clause='repeat-count',
+                                 detail="a fill of %s x 0x%s is sent as %s bytes" % (b[1], uni(a), a[1]),
+                                 replay=dict(kind='correspondence', panel=m['panel'], feat=m['feat'], suite=m['suite'], case=m['case'],
+                                             op_index=m['opidx'], op=m['op'], first_diff=fd, script=m['script'])))
+    viol.sort(key=lambda v: 1 if v.get('no_input') else 0)
     if not proof['ok']:
         viol.append(proof_violation('C10', proof))
     cov = base_coverage(run)
@@ -310,9 +327,9 @@ def escalate_oracle(panel_names, seed):
         res['ops'] += st['ops']
     return res
 
-def wire_check(prop, tier, seed, t0, assumptions, extra_viol=(), extra_cov=None, suites=None, corr_filter=None):
+def wire_check(prop, tier, seed, t0, assumptions, extra_viol=(), extra_cov=None, suites=None, corr_filter=None, extra_files=()):
     projs, ops, tie = WIRE[prop]
-    proof = proof_status(['Properties/%s.v' % prop], clean=(tier == 'thorough'))
+    proof = proof_status(['Properties/%s.v' % prop] + list(extra_files), clean=(tier == 'thorough'))
     ks = vlib.known_sync_problem()
     if ks:
         proof['ok'] = False
@@ -371,7 +388,9 @@ def check_C18(tier, seed, t0):
 def check_C01(tier, seed, t0):
     return wire_check('C01', tier, seed, t0, STD_ASSUME + ["12.48in driver: see C15"])
 def check_C06(tier, seed, t0):
-    return wire_check('C06', tier, seed, t0, STD_ASSUME + ["12.48in partial writes: see C15"])
+    return wire_check('C06', tier, seed, t0, STD_ASSUME + ["12.48in partial writes: see C15",
+                      "Properties/C06w.v: for epd4in2 (x < 256), epd1in02, epd2in7, epd2in7b the window theorems hold for ALL aligned in-panel windows, all buffers, every idle controller state (universally quantified x y w h), not only the alphabet's windows"],
+                      extra_files=['Properties/C06w.v'])
 def check_C05(tier, seed, t0):
     return wire_check('C05', tier, seed, t0, STD_ASSUME + ["real time is abstracted to poll counts (virtual clock of the mocks)"])
 
